@@ -11,6 +11,15 @@ Read with Python's `ast` only (pint is never imported here).  Emitted:
   * `evaluate_applies`      the callee expressions of the calls in `EvalTreeNode.evaluate` that are
                             not the recursive `.evaluate(...)` calls or `isinstance` (expected:
                             `bin_op[op_text]`, `un_op[op_text]`, `define_op`, `DefinitionSyntaxError`);
+  * `paren_juxt_any_priority`, `pow_exempt_any_priority`
+                            two booleans read off the SHAPE of two fragments of `_build_eval_tree`
+                            (exactly two known shapes each, anything else is a translator error):
+                            the body of `elif token_text == "(":` (true = as first found: the
+                            group is attached by juxtaposition whatever the pending operator,
+                            F16; false = priority test as for a NUMBER/NAME), and the test that
+                            ends a pending operator (true = as first found: `**`/`^` never end
+                            it, F41; false = exempt only at equal priority).  Model/Eval.v takes
+                            both as parameters of `go_p`/`build_p`;
   * `imports`               every module imported anywhere in the file;
   * `forbidden_calls`       static scan: every call whose target is one of eval / exec / compile /
                             getattr / setattr / delattr / __import__ / open / input / globals /
@@ -118,6 +127,95 @@ def callable_text(node, name):
     raise T2Error(f"{name}: value is neither a name nor a lambda")
 
 
+# ----------------------------------------------------------------------------- shapes of _build_eval_tree
+PAREN_OLD = '''
+right, index = _build_eval_tree(tokens, op_priority, index + 1, 0, token_text)
+if not tokens[index][1] == ")":
+    raise DefinitionSyntaxError("weird exit from parentheses")
+if result:
+    result = EvalTreeNode(left=result, right=right)
+else:
+    result = right
+'''
+PAREN_NEW = '''
+if result:
+    if op_priority[""] <= op_priority.get(prev_op, -1):
+        return result, index - 1
+    right, index = _build_eval_tree(tokens, op_priority, index, depth + 1, "")
+    result = EvalTreeNode(left=result, right=right)
+else:
+    right, index = _build_eval_tree(tokens, op_priority, index + 1, 0, token_text)
+    if not tokens[index][1] == ")":
+        raise DefinitionSyntaxError("weird exit from parentheses")
+    result = right
+'''
+POW_OLD = 'op_priority[token_text] <= op_priority.get(prev_op, -1) and token_text not in ("**", "^")'
+POW_NEW = ('op_priority[token_text] < prev_priority or '
+           '(op_priority[token_text] == prev_priority and token_text not in ("**", "^"))')
+PREV_ASSIGN = "prev_priority = op_priority.get(prev_op, -1)"
+
+
+def _dump_stmts(stmts):
+    return [ast.dump(x) for x in stmts]
+
+
+def _block(src):
+    return _dump_stmts(ast.parse(src).body)
+
+
+def builder_shapes(tree):
+    """(paren_juxt_any_priority, pow_exempt_any_priority) from the shape of _build_eval_tree"""
+    fns = [n for n in tree.body if isinstance(n, ast.FunctionDef) and n.name == "_build_eval_tree"]
+    if len(fns) != 1:
+        raise T2Error("expected exactly one module-level function _build_eval_tree")
+    fn = fns[0]
+    # --- the "(" branch
+    parens = [n for n in ast.walk(fn) if isinstance(n, ast.If) and ast.unparse(n.test) == "token_text == '('"]
+    if len(parens) != 1:
+        raise T2Error(f"_build_eval_tree: expected exactly one branch on token_text == '(', found {len(parens)}")
+    body = _dump_stmts(parens[0].body)
+    if body == _block(PAREN_OLD):
+        paren_any = True
+    elif body == _block(PAREN_NEW):
+        paren_any = False
+    else:
+        raise T2Error("_build_eval_tree: the '(' branch has neither of the two known shapes")
+    # --- the test that ends a pending operator
+    cands = [n for n in ast.walk(fn) if isinstance(n, ast.If) and "not in ('**', '^')" in ast.unparse(n.test)]
+    if len(cands) != 1:
+        raise T2Error(f"_build_eval_tree: expected exactly one test mentioning ('**', '^'), found {len(cands)}")
+    cond = cands[0]
+    if [ast.unparse(x) for x in cond.body] != ["return (result, index - 1)"]:
+        raise T2Error("_build_eval_tree: the operator test does not end with 'return result, index - 1'")
+    if cond.orelse:
+        raise T2Error("_build_eval_tree: the operator test has an else branch")
+    test = ast.dump(cond.test)
+    assigns = [n for n in ast.walk(fn) if isinstance(n, (ast.Assign, ast.AnnAssign, ast.AugAssign, ast.NamedExpr))
+               and any(isinstance(x, ast.Name) and x.id == "prev_priority"
+                       for t in (n.targets if isinstance(n, ast.Assign) else [n.target]) for x in ast.walk(t))]
+    if test == ast.dump(ast.parse(POW_OLD, mode="eval").body):
+        if assigns:
+            raise T2Error("_build_eval_tree: unexpected assignment to prev_priority")
+        pow_any = True
+    elif test == ast.dump(ast.parse(POW_NEW, mode="eval").body):
+        if len(assigns) != 1 or ast.dump(assigns[0]) != ast.dump(ast.parse(PREV_ASSIGN).body[0]):
+            raise T2Error("_build_eval_tree: prev_priority is not 'op_priority.get(prev_op, -1)' assigned once")
+        # the assignment must be the statement just before the test, in the same block
+        ok = False
+        for n in ast.walk(fn):
+            for field in ("body", "orelse"):
+                blk = getattr(n, field, None)
+                if isinstance(blk, list) and cond in blk:
+                    i = blk.index(cond)
+                    ok = i > 0 and blk[i - 1] is assigns[0]
+        if not ok:
+            raise T2Error("_build_eval_tree: prev_priority is not assigned directly before the operator test")
+        pow_any = False
+    else:
+        raise T2Error("_build_eval_tree: the operator test has neither of the two known shapes")
+    return paren_any, pow_any
+
+
 def coq_Z(n):
     return f"({n})%Z" if n < 0 else f"{n}%Z"
 
@@ -183,6 +281,8 @@ def translate(source: str) -> str:
             forbidden.append(f"{n.id}@{n.lineno}")
     forbidden = sorted(set(forbidden))
 
+    paren_any, pow_any = builder_shapes(tree)
+
     def pairs_Z(ps):
         return coq_list([f"({coq_str(k)}, {coq_Z(v)})" for k, v in ps])
 
@@ -197,6 +297,8 @@ def translate(source: str) -> str:
         f"Definition unary_operator_map : list (string * string) :=\n  {pairs_s(unmap)}.\n"
         f"Definition power_returns : string := {coq_str(power_returns)}.\n"
         f"Definition evaluate_applies : list string := {coq_list([coq_str(x) for x in applies])}.\n"
+        f"Definition paren_juxt_any_priority : bool := {'true' if paren_any else 'false'}.\n"
+        f"Definition pow_exempt_any_priority : bool := {'true' if pow_any else 'false'}.\n"
         f"Definition imports : list string := {coq_list([coq_str(x) for x in imports])}.\n"
         f"Definition forbidden_calls : list string := {coq_list([coq_str(x) for x in forbidden])}.\n"
     )
@@ -220,22 +322,55 @@ class EvalTreeNode:
         if self.right:
             return bin_op[self.operator](self.left.evaluate(define_op), self.right.evaluate(define_op))
         return define_op(self.left)
+def _build_eval_tree(tokens, op_priority, index=0, depth=0, prev_op="<none>"):
+    result = None
+    while True:
+        token_text = tokens[index].string
+        if token_text == ")":
+            return result, index
+        elif token_text == "(":
+@PAREN@
+        elif token_text in op_priority:
+            if result:
+@PREV@
+                if @POW@:
+                    return result, index - 1
+                right, index = _build_eval_tree(tokens, op_priority, index + 1, depth + 1, token_text)
+        index += 1
 '''
 
 
+def _mini(paren, pow_test, prev=""):
+    ind = lambda txt, n: "\n".join(" " * n + l for l in txt.strip().splitlines())
+    return (MINI.replace("@PAREN@", ind(paren, 12)).replace("@POW@", pow_test)
+            .replace("@PREV@", " " * 16 + (prev or "pass")))
+
+
 def selftest():
-    out = translate(MINI)
+    new_src = _mini(PAREN_NEW, POW_NEW, PREV_ASSIGN)
+    old_src = _mini(PAREN_OLD, POW_OLD)
+    out = translate(new_src)
     assert '[("**", 3%Z); ("*", 1%Z)]' in out and '("**", "_power")' in out, out
     assert 'forbidden_calls : list string := []' in out, out
-    for bad in (MINI + "\n_OP_PRIORITY['*'] = 5\n", MINI.replace('{"**": 3, "*": 1}', 'dict(a=1)'),
-                MINI + "\n_OP_PRIORITY.update({'+': 9})\n"):
+    assert "paren_juxt_any_priority : bool := false" in out and "pow_exempt_any_priority : bool := false" in out, out
+    out_old = translate(old_src)
+    assert "paren_juxt_any_priority : bool := true" in out_old and "pow_exempt_any_priority : bool := true" in out_old
+    mixed = translate(_mini(PAREN_NEW, POW_OLD))
+    assert "paren_juxt_any_priority : bool := false" in mixed and "pow_exempt_any_priority : bool := true" in mixed
+    for bad in (new_src + "\n_OP_PRIORITY['*'] = 5\n", new_src.replace('{"**": 3, "*": 1}', 'dict(a=1)'),
+                new_src + "\n_OP_PRIORITY.update({'+': 9})\n",
+                _mini(PAREN_NEW, POW_NEW),                                   # prev_priority never assigned
+                _mini(PAREN_NEW, POW_OLD.replace("<=", "<")),                # a third shape of the test
+                _mini(PAREN_NEW, POW_NEW.replace("==", ">="), PREV_ASSIGN),
+                _mini(PAREN_NEW, POW_NEW, "prev_priority = op_priority.get(prev_op, 0)"),
+                _mini(PAREN_OLD.replace("index + 1, 0", "index + 1, 1"), POW_OLD)):
         try:
             translate(bad)
         except T2Error:
             continue
-        raise AssertionError("T2 accepted a table it cannot read")
-    assert "eval@" in translate(MINI + "\nx = eval('1')\n")
-    assert "os.system@" in translate(MINI + "\nimport os\nos.system('true')\n")
+        raise AssertionError("T2 accepted a source it cannot read")
+    assert "eval@" in translate(new_src + "\nx = eval('1')\n")
+    assert "os.system@" in translate(new_src + "\nimport os\nos.system('true')\n")
     return True
 
 
